@@ -1,5 +1,6 @@
 //! vkit: common machinery for the runtime monitors of /verif (see /verif/DESIGN.md §2).
 #![allow(clippy::too_many_arguments)]
+pub mod client;
 pub mod gen;
 pub mod json;
 pub mod klayout;
